@@ -231,7 +231,10 @@ def acquire_slot():
 def _limits(mem_gb):
     def f():
         os.setsid()
-        lim = int(mem_gb * (1 << 30))
+        # address-space cap for the whole process tree of the harness (cargo,
+        # kani-driver, cbmc): CBMC's virtual size runs ahead of its resident
+        # size and kani-driver itself needs a few GB to parse CBMC's output
+        lim = int((mem_gb * 1.25 + 3) * (1 << 30))
         resource.setrlimit(resource.RLIMIT_AS, (lim, lim))
     return f
 
@@ -305,7 +308,7 @@ def parse_kani_log(text, res):
     failed = []
     covers = []
     user_checks = 0
-    for cm_ in re.finditer(r'Check \d+: (\S+)\n\s+- Status: (\w+)\n\s+- Description: "(.*)"\n\s+- Location: (\S+)', text):
+    for cm_ in re.finditer(r'Check \d+: ([^\n]+)\n\s+- Status: (\w+)\n\s+- Description: "(.*)"\n\s+- Location: (\S+)', text):
         cid, st, desc, loc = cm_.groups()
         if '.cover.' in cid:
             covers.append((desc, st))
